@@ -1,4 +1,5 @@
 import Toodee.Driver.Step2
+import Toodee.Driver.StepSerde
 /-
   Top-level line handler of the driver.
 -/
@@ -93,6 +94,7 @@ def step (cx : Ctx) (line : String) (robs : Option RObs) : Option MOut :=
           else (stepCtor cx op args <|> stepStructural cx op args <|> stepConv cx rc op args)
         else
           (stepAccess cx rc op args <|> stepIter cx rc op args <|> stepConv cx rc op args
+            <|> stepSerde cx rc op args line
             <|> (if op.startsWith "sort_unstable" then robs.bind (stepUnstable cx rc op args) else none)
             <|> stepInplace cx rc op args robs)
   | _ => some cx.badOp
